@@ -825,9 +825,82 @@ def numeric_inverse_vs_pywt(rep, pid, tier):
                               % (name, form2, mode_arg, J2, H, W, err, bound, y.shape, ref.shape),
                               {"api": "DWTInverse", "check": "numeric", "cfg": dict(wavelet=name, mode=mode, H=H, W=W, J=J2)})
             rep.nontriv(("numeric-inv", name, mode))
-    rep.validated(n1 + n2)
+    n3 = _deep_none_pyramids(rep, pid, tier, rng)
+    rep.validated(n1 + n2 + n3)
     rep.count("numeric_1d_comparisons", n1)
     rep.count("numeric_2d_comparisons", n2)
+    rep.count("numeric_deep_none_comparisons", n3)
+
+
+def _deep_none_pyramids(rep, pid, tier, rng):
+    """deep pyramids (J = 3..5) whose sizes are odd at interior levels, with None ("treated as zeros") at interior, adjacent and
+    outer levels: where a None level sits the running lowpass stays one sample too long per level, so the next real level has
+    to drop a surplus of two or more - the only place where HOW the surplus is dropped shows.  Oracle: pywt.waverec / waverec2
+    with zero arrays of the forward shapes in place of None, on the extent of the signal (the module may return more)."""
+    import pywt
+    import torch
+    import pytorch_wavelets as pw
+    n = 0
+    names = ["haar", "db2", "db3", "sym4", "bior2.2", "bior1.3", "coif1"] + (["db5", "bior4.4", "rbio2.4", "sym7"] if tier != "quick" else [])
+    for name in names:
+        wv = pywt.Wavelet(name)
+        L = wv.dec_len
+        G = max(np.abs(wv.rec_lo).sum(), np.abs(wv.rec_hi).sum())
+        for mode in ("zero", "symmetric", "periodic", "reflect"):
+            for rep_k in range(2 if tier == "quick" else 5):
+                J = int(rng.integers(3, 6))
+                H = int(rng.integers(8 * L + 3, 8 * L + 40))
+                W = int(rng.integers(8 * L + 3, 8 * L + 40))
+                try:
+                    t1 = pywt.wavedec(np.zeros(W), wv, mode=mode, level=J)
+                    t2 = pywt.wavedec2(np.zeros((H, W)), wv, mode=mode, level=J)
+                except ValueError:
+                    continue
+                k = int(rng.integers(1, J))                    # how many levels are None (at least one real level remains)
+                none = set(int(v) for v in rng.choice(np.arange(1, J + 1), size=k, replace=False))     # level j = 1 (finest) .. J
+                if rep_k == 0:
+                    none = {j for j in range(2, J)} or {1}     # every interior level: the largest surplus
+                cfg = dict(wavelet=name, mode=mode, H=H, W=W, J=J, none=sorted(none))
+                # ---- 1-D
+                c1 = [rng.standard_normal((2, 2) + t1[0].shape)] + [rng.standard_normal((2, 2) + d.shape) for d in t1[1:]]
+                for j in none:
+                    c1[J - j + 1] = np.zeros_like(c1[J - j + 1])
+                ref = pywt.waverec(c1, wv, mode=mode, axis=-1)
+                yh = [None if (j + 1) in none else torch.tensor(c1[J - j]) for j in range(J)]
+                bound = 64 * EPS64 * L * J * (2 * G) ** J * max(np.abs(c).max() for c in c1)
+                try:
+                    y = pw.DWT1DInverse(wave=name, mode=mode)((torch.tensor(c1[0]), yh)).numpy()
+                    err = np.abs(y[..., :W] - ref[..., :W]).max() if y.shape[-1] >= W else np.inf
+                except Exception as e:   # noqa
+                    err, y = np.inf, repr(e)
+                n += 1
+                rep.nontriv(("deep-none-1d", name, mode, J, tuple(sorted(none))))
+                if not err <= bound:
+                    rep.violation("DWT1DInverse(%s, %s) on a %d-level pyramid of a length-%d signal with None at levels %s differs from "
+                                  "pywt.waverec (zeros of the forward shapes there) by %.3g (bound %.3g) on the extent of the signal%s"
+                                  % (name, mode, J, W, sorted(none), err, bound, "" if not isinstance(y, str) else ": " + y[:120]),
+                                  {"api": "DWT1DInverse", "check": "numeric", "cfg": cfg})
+                # ---- 2-D
+                c2 = [rng.standard_normal((1, 2) + t2[0].shape)] + [
+                    tuple(rng.standard_normal((1, 2) + d.shape) for d in lev) for lev in t2[1:]]
+                for j in none:
+                    c2[J - j + 1] = tuple(np.zeros_like(d) for d in c2[J - j + 1])
+                ref = pywt.waverec2(c2, wv, mode=mode, axes=(-2, -1))
+                yh = [None if (j + 1) in none else torch.tensor(np.stack(c2[J - j], axis=2)) for j in range(J)]
+                bound = 64 * EPS64 * L * L * J * (2 * G) ** (2 * J) * max(np.abs(c2[0]).max(), 4.0)
+                try:
+                    y = pw.DWTInverse(wave=name, mode=mode)((torch.tensor(c2[0]), yh)).numpy()
+                    err = np.abs(y[..., :H, :W] - ref[..., :H, :W]).max() if (y.shape[-2] >= H and y.shape[-1] >= W) else np.inf
+                except Exception as e:   # noqa
+                    err, y = np.inf, repr(e)
+                n += 1
+                rep.nontriv(("deep-none-2d", name, mode, J, tuple(sorted(none))))
+                if not err <= bound:
+                    rep.violation("DWTInverse(%s, %s) on a %d-level pyramid of a %dx%d image with None at levels %s differs from "
+                                  "pywt.waverec2 (zeros of the forward shapes there) by %.3g (bound %.3g) on the extent of the image%s"
+                                  % (name, mode, J, H, W, sorted(none), err, bound, "" if not isinstance(y, str) else ": " + y[:120]),
+                                  {"api": "DWTInverse", "check": "numeric", "cfg": cfg})
+    return n
 
 
 # ------------------------------------------------------------------------------------------
@@ -1043,6 +1116,46 @@ def numeric_round_trips(rep, fnd, pid, tier):
                                   % (err, bound, cfg, xr.shape[-2:]), {"api": "DWT2D round trip", "check": "num_pr", "cfg": cfg})
                     break
             rep.nontriv(("num_pr", name, mode))
+    # a different wavelet per axis (the 4-tuple form: column filters first): the synthesis must pair each axis with ITS bank
+    pairs = [("db2", "haar"), ("db4", "sym4"), ("bior2.2", "db3"), ("sym5", "bior1.3"), ("coif1", "rbio2.2"), ("db3", "coif1")]
+    if tier != "quick":
+        pool = [nm for nm in names if pywt.Wavelet(nm).dec_len <= 16 and pr_residual(pywt.Wavelet(nm)) < 1e-10]
+        pairs += [(str(a_), str(b_)) for a_, b_ in zip(rng.permutation(pool)[:30], rng.permutation(pool)[:30]) if a_ != b_]
+    n4 = 0
+    for wc, wr in pairs:
+        a, b = pywt.Wavelet(wc), pywt.Wavelet(wr)
+        res = max(pr_residual(a), pr_residual(b))
+        Lm = max(a.dec_len, b.dec_len)
+        G2 = max(np.abs(v).sum() for v in (a.dec_lo, a.dec_hi, b.dec_lo, b.dec_hi)) * max(
+            np.abs(v).sum() for v in (a.rec_lo, a.rec_hi, b.rec_lo, b.rec_hi))
+        for mode in dwtlib.MODES:
+            J2 = int(rng.integers(1, 4))
+            H = int(rng.integers(a.dec_len + 2 * J2, 3 * a.dec_len + 16))
+            W = int(rng.integers(b.dec_len + 2 * J2, 3 * b.dec_len + 16))
+            fw = pw.DWTForward(J=J2, wave=(a.dec_lo, a.dec_hi, b.dec_lo, b.dec_hi), mode=mode)
+            iv = pw.DWTInverse(wave=(a.rec_lo, a.rec_hi, b.rec_lo, b.rec_hi), mode=mode)
+            x = rng.standard_normal((2, 2, H, W))
+            cfg = dict(col_wavelet=wc, row_wavelet=wr, mode=mode, H=H, W=W, J=J2)
+            try:
+                yl, yh = fw(torch.tensor(x))
+            except Exception:   # noqa   (admissibility of forward raises is C01's business)
+                continue
+            n4 += 1
+            rep.nontriv(("num_pr_two_wavelets", wc, wr, mode))
+            try:
+                xr = iv((yl, yh)).numpy()
+                okshape = xr.shape[-2] in (H, H + 1) and xr.shape[-1] in (W, W + 1)
+                err = np.abs(xr[..., :H, :W] - x).max() if okshape else np.inf
+                shp = xr.shape[-2:]
+            except Exception as e:   # noqa
+                err, shp = np.inf, repr(e)[:120]
+            gain = (2 * G2) ** (2 * J2) * max(np.abs(x).max(), 1.0)
+            bound = 64 * EPS64 * Lm * Lm * J2 * gain + 8 * J2 * Lm * Lm * res * gain
+            if not err <= bound:
+                rep.violation("DWT2D round trip with a wavelet per axis (columns %s, rows %s): error %.3g exceeds bound %.3g at %s (output %s)"
+                              % (wc, wr, err, bound, cfg, shp), {"api": "DWT2D round trip (4-tuple)", "check": "num_pr", "cfg": cfg})
+    n += n4
+    rep.count("numeric_round_trips_two_wavelets", n4)
     rep.validated(n)
     rep.count("numeric_round_trips", n)
     rep.extra["pr_residual_max_over_wavelets_excl_dmey"] = max(v for k, v in worst_res.items() if k != "dmey")
